@@ -12,7 +12,8 @@ def sh(cmd, cwd=None, timeout=1800):
     p = subprocess.run(cmd, cwd=cwd, shell=isinstance(cmd, str), capture_output=True, text=True, env=ENV, timeout=timeout)
     return p.returncode, p.stdout + p.stderr
 
-def confirm(patch, demo):
+def confirm(patch, demo, race=False):
+    rflag = "-race " if race else ""
     wt = "/tmp/seedconfirm-%d" % os.getpid()
     sh("git -C /repo worktree remove --force %s" % wt)
     rc, out = sh("git -C /repo worktree add -q --detach %s HEAD" % wt)
@@ -31,11 +32,11 @@ def confirm(patch, demo):
         res["suite_passes_with_change"] = rc == 0
         if demo and os.path.exists(demo):
             shutil.copy(demo, os.path.join(wt, "zz_demo_test.go"))
-            rc, out = sh("go test -vet=off -count=1 -run TestSeedDemo ./", cwd=wt)
+            rc, out = sh("go test %s-vet=off -count=1 -run TestSeedDemo ./" % rflag, cwd=wt)
             res["demo_fails_with_change"] = rc != 0
             res["demo_output_with_change"] = out[-600:]
             sh("git checkout -- . ", cwd=wt)
-            rc, out = sh("go test -vet=off -count=1 -run TestSeedDemo ./", cwd=wt)
+            rc, out = sh("go test %s-vet=off -count=1 -run TestSeedDemo ./" % rflag, cwd=wt)
             res["demo_passes_without_change"] = rc == 0
     finally:
         sh("git -C /repo worktree remove --force %s" % wt)
@@ -74,7 +75,9 @@ def main():
             continue
         demo = os.path.join(kd, "demo_test.go")
         meta = json.load(open(os.path.join(kd, "meta.json"))) if os.path.exists(os.path.join(kd, "meta.json")) else {}
-        conf = confirm(patch, demo)
+        conf = confirm(patch, demo, bool(meta.get("needs_race")))
+        if meta.get("needs_race"):
+            conf["demo_run_with_race_detector"] = True
         ok = conf.get("applies") and conf.get("builds") and conf.get("suite_passes_with_change") and conf.get("demo_fails_with_change") and conf.get("demo_passes_without_change")
         checks = run_checks(patch, pids) if conf.get("applies") else {}
         caught = [p for p, r in checks.items() if isinstance(r, dict) and r.get("rc") == 1 and r.get("violations")]
